@@ -4,6 +4,7 @@
 import TwProofs.Lemmas.Sort
 
 import TwProofs.C04
+import TwProofs.Lemmas.TextVars
 
 namespace Tw.C12
 open Tw
@@ -191,6 +192,21 @@ theorem data_is_visible_in_nested_blocks (data : List (Bytes × GoVal)) (env : E
   induction n with
   | zero => exact hg
   | succ n ih => rw [Nat.repeat, C04.nested_block_sees_outer]; exact ih
+
+/-- **a root value of the data prints as its converted value, from the source bytes on**: for every
+    data map with distinct keys and every entry `(k, g)` whose key is a name, the template
+    `{{ k }}` — with any white space `g1`, `g2` around the name, any text `pre`, `post` around the block —
+    renders `pre`, the printed converted value of `g`, `post` -/
+theorem root_value_prints (custom : List ((VType × Bytes) × Nat)) (data : List (Bytes × GoVal)) (env : Env) (hd : KeysDistinct data)
+    (h : envFromMap data = .ok env) (k : Bytes) (g : GoVal) (hm : (k, g) ∈ data) (hk : isName k)
+    (g1 g2 : Bytes) (hg1 : allWs g1) (hg2 : allWs g2) :
+    ∃ v, nativeToObject g = some v ∧
+      evaluateStringPure custom ([123, 123] ++ g1 ++ k ++ g2 ++ [125, 125]) data = .ok v.toStr := by
+  obtain ⟨v, hv, hget⟩ := data_is_visible data env hd h k g hm
+  refine ⟨v, hv, ?_⟩
+  have := vitems_render custom [.print g1 k g2] ⟨hg1, hg2, hk, trivial⟩ (by simp [vpieces, evalFuel]) data env h
+    (by simp [vpieces, holesBound, hget])
+  simpa [vitemsSrc, VItem.src, vpieces, fill, hget] using this
 
 /-! non-vacuity -/
 
